@@ -1,13 +1,16 @@
-"""C18 — the concurrent map behaves as an ordinary key->value map (sequential refinement;
-linearizability under the extracted lock discipline is validated by threaded runs in the thorough tier)."""
+"""C18 — the concurrent map behaves as an ordinary key->value map: sequential refinement (C18_seq) and linearizability
+for every schedule of the micro-step interleaving model (C18Conc: C18_linearizable), whose mutex modes are tied to the
+source by an extracted fact; threaded runs (Wing-Gong, TSan) validate the model against the real std::shared_mutex code."""
 import itertools
 from vlib import Case
 
 HARNESS = "rx_driver"
-LEAN_MODULES = ["ViaProofs.C18"]
-REQUIRED_THEOREMS = ['Via.C18_seq', 'Via.erase_absent_noop', 'Via.C18_erase_compares_key_under_lock', 'Via.C18_lock_discipline', 'Via.C18_commute_distinct_buckets']
+LEAN_MODULES = ["ViaProofs.C18", "ViaProofs.C18Conc"]
+REQUIRED_THEOREMS = ['Via.C18_seq', 'Via.erase_absent_noop', 'Via.C18_erase_compares_key_under_lock', 'Via.C18_lock_discipline', 'Via.C18_commute_distinct_buckets',
+                     'Via.HM.Conc.step_inv', 'Via.HM.Conc.step_hinv', 'Via.HM.Conc.C18_linearizable', 'Via.HM.Conc.C18_returned',
+                     'Via.HM.Conc.C18_lock_modes_match']
 LEVEL = "proof"
-LEVEL_TEXT = ('PROOF of sequential refinement to an ordinary map for every bucket count, hash function and history, of erase-absent-is-noop, and that single-bucket operations on different buckets commute (state and results); the lock discipline is an extracted structural fact; the reduction from lock-respecting interleavings to a sequential order is NOT formalised and is searched for counter-examples by a threaded Wing-Gong linearizability check and TSan.')
+LEVEL_TEXT = ('PROOF (1) of sequential refinement to an ordinary map for every bucket count, hash function and history (C18_seq, erase-absent-is-noop) and (2) of LINEARIZABILITY FOR EVERY SCHEDULE (ViaProofs/C18Conc.lean over ViaModel/HashMapConc.lean): any number of threads, every operation split into the micro-steps of the C++ (take the bucket mutex exclusively or shared / read the bucket / write the bucket / release; empty, data and clear take all mutexes in index order first), a mutex obtainable only when no other thread holds it in a conflicting mode, nothing assumed about the scheduler; in every reachable state the linearization points in their order of occurrence are a run of the sequential map with exactly the results returned, every linearization point lies between its invocation and its return (C18_linearizable, C18_returned), and the quiescent memory equals the sequential map. The mutex mode of every operation in the model equals the mode in the current source (C18_lock_modes_match over a re-extracted fact, which also requires that whole-map operations take every mutex before their first access). Modelled, not verified: std::shared_mutex semantics, that each operation accesses only the bucket(s) whose mutex it holds, data races inside std::vector (TSan run).')
 RULE = ("all operation histories up to a length bound over keys {1,2,3,22} x bucket configurations "
         "(1 bucket = maximal collision, 3 buckets, default 19) plus random histories up to 200 operations; "
         "each history ends by reading back every key, empty() and data(); non-trivial = contains an erase or an "
@@ -15,10 +18,10 @@ RULE = ("all operation histories up to a length bound over keys {1,2,3,22} x buc
 TRUSTED_BASE = ["Lean 4.33 kernel", "axioms: propext, Classical.choice, Quot.sound at most",
                 "tools/extract.py (lock discipline, key comparison in remove_mapping as structural facts)",
                 "rx_driver harness + via_model driver", "std::vector/std::lower_bound modelled as list operations",
-                "std::shared_mutex provides mutual exclusion (assumed)"]
-ASSUMPTIONS = ["the theorem is the sequential refinement; atomicity of each operation under concurrency rests on the "
-               "extracted fact that every bucket operation takes the bucket mutex before touching the data and that "
-               "whole-map operations lock every bucket in index order"]
+                "std::shared_mutex provides exclusive/shared mutual exclusion (the enabling condition of the acquire steps in ViaModel/HashMapConc.lean)",
+                "the split of each operation into micro-steps (acquire, read bucket, write bucket, release) is hand-written from the source; lock modes and lock-before-access order are re-extracted"]
+ASSUMPTIONS = ["bucket count > 0 (hash % 0 is undefined in the C++ as well)",
+               "a thread touches only the bucket(s) whose mutex it holds (extracted: the mutex is taken before the first use of data_)"]
 EXHAUSTIVE = {"quick": "all histories of <= 3 operations over 3 keys x 3 bucket configurations",
               "thorough": "all histories of <= 4 operations over 3 keys x 3 bucket configurations"}
 
